@@ -1,5 +1,6 @@
 """C06 - only eligible victims are evicted, and only to place a workload."""
 import st_cluster
+import st_fixtures
 
 LEVEL = "model_checking"
 PREFIXES = ["C06_"]
@@ -15,3 +16,5 @@ def run(ctx):
                        "settings with start times hours away from the limits; non-trivial = the real scheduler evicted at least one pod")
     n = 300 if ctx.quick else 8000
     st_cluster.run_stage(ctx, PREFIXES, [("full", n // 4), ("closed", n // 8), ("mixed", n // 8), ("minrt", n // 2)], nontrivial_fn=nontrivial)
+    if not ctx.quick:
+        st_fixtures.run_stage(ctx, PREFIXES)
